@@ -23,8 +23,9 @@ ENGINE = {'name': 'timing',
  'trusted_base': ['time.Now / timers / goroutine scheduling of the Go runtime; the scripted clients and the zap core that classifies how matching ended (harness)',
                   'the white-box packetConn is constructed by the harness with the fields Server.servePacket sets (readCh, addr, closeCh)'],
  'modelled': ['layer4/routes.go: the deadline computed once per Compile invocation, armed at the loop label, cleared on match and before the fallback',
-              'layer4/server.go: packetConn.SetReadDeadline / Read (stored granularity from the source, entry test, deadline timer, idle timer, rest of the last datagram)',
+              'layer4/server.go: packetConn.SetReadDeadline / Read (stored granularity from the source, entry test, deadline timer whose channel may hold a stale tick, recheck of the stored deadline on a tick as found in the source, idle timer, rest of the last datagram)',
               'net.TCPConn / net.Pipe read-deadline semantics (fail at once when passed; data wins before the deadline)',
               'not modelled: scheduler slack, CPU time of matchers and handlers (measured with tolerances)'],
- 'assumptions': ['matchers and handlers take no model time; time passes only inside blocked reads',
+ 'assumptions': ['time.Timer channel semantics of Go before 1.23 (Reset does not drain a tick), which /repo\'s go.mod selects; when a stale tick and a datagram are both ready the model lets the tick be received first',
+                 'matchers and handlers take no model time; time passes only inside blocked reads',
                  'TCP read-deadline semantics as documented for net.Conn (model/Timing.v tcp_read)']}
